@@ -48,7 +48,7 @@ TEXT = {
     "C15": "as-is semantics proved exactly + closed refutations of the three violated clauses (known findings R5), negative value rejected",
     "C20": "refinement proof over all histories of the queue machine: exactly-once marking (also next to hand marks: take = get_nowait()+item_processed() by non-task code), unfinished=puts-exits-takes, join iff",
     "C16": "command surface = public functions and properties, dash-naming injective, flag assignment never claims -h and never clashes (parser can be built), handshake reply, help everywhere",
-    "C17": "round trip: for every public method, every option subset in short or long form before or after the positionals, the parse is the call with the expected namespace (defaults = the method's own); dispatch split and reply rule",
+    "C17": "round trip: for every public method, every option subset in short or long form (value in the next string, attached `-cV` / `-c=V`, `--name=V`, abbreviations; several flags and an option in one single-dash string; the separator `--` around the positional strings) before or after the positionals, the parse is the call with the expected namespace (defaults = the method's own); dispatch split and reply rule",
     "C18": "one reply per non-blank line (counting invariant over all session histories), buffer empty between commands, errors and help change nothing, sessions independent",
     "C19": "server life-cycle machine: serving until stop, done iff stop requested and all clients gone, refuses after stop, disconnects isolated, socket file removed, same object serves again after a restart",
 }
